@@ -1,6 +1,7 @@
 # C11: checked arithmetic reports true rounding relations; bounded builds never lie.
-_C11_SRC = ["harness/c11_main.cc", "harness/c11_int8.cc", "harness/c11_int16_32.cc", "harness/c11_int64.cc",
-            "harness/c11_float.cc", "harness/c11_mp.cc", "harness/c11_conv_a.cc", "harness/c11_conv_b.cc", "harness/c11_conv_c.cc"]
+_C11_SRC = ["harness/c11_main.cc"] + ["harness/c11_%s.cc" % n for n in (
+    "int8", "uint8", "int16", "int32", "int64", "llong", "float", "double", "ldouble", "mpz", "mpq",
+    "conv_a", "conv_b", "conv_c", "conv_d", "conv_e")]
 HARNESSES = {
     # part 1: numeric kernel against the exact GMP oracle
     "c11": {"src": _C11_SRC, "variant": "prod"},
